@@ -425,6 +425,6 @@ def run(ctx):
     ctx.sample({"operator table": {k: list(v) for k, v in INT_TABLE.items()}, "float": {k: list(v) for k, v in FLOAT_TABLE.items()}})
     # positive control for the zero-count rule N6
     cprog = ctx.controls
-    sub = type(ctx)(ctx.prop, ctx.tier, ctx.repo)
+    sub = ctx.fresh()
     check_narrow(sub, cprog, [("rem", cprog.fn("mjsa_controls::c08::rem"))], "control:")
     ctx.control("C08.N6", any(not o[2] for o in sub.obligations))
